@@ -18,8 +18,11 @@ pub enum Ev {
     Bitmap,
     /// the same through the lenient entry point (try_write): still refused
     BitmapLenient,
-    /// the server sends something in between: 0 fast-path bitmap, 1 set-error-info, 2 unknown data PDU
+    /// the server sends something in between: 0 fast-path bitmap, 1 set-error-info, 2 unknown data PDU,
+    /// 3 a demand-active (not preceded by a deactivate-all: ignored in the active state), 4 a confirm-active
     Server(u8),
+    /// the transport refuses the next write once, before accepting any byte (kind index: WouldBlock, TimedOut, Other)
+    FailNextWrite(u8),
 }
 
 #[derive(Clone, Debug, Serialize)]
@@ -119,7 +122,7 @@ impl Prop for C11 {
         for s in &seqs {
             cs.push(Case { events: s.clone(), user_id: uid, share_id: sid, block: "sequences", lenient: false, caps: 0, write_cap: 0 });
             for pos in 0..=s.len() {
-                for k in 0..3u8 {
+                for k in 0..5u8 {
                     let mut e = s.clone();
                     e.insert(pos, Ev::Server(k));
                     cs.push(Case { events: e, user_id: uid, share_id: sid, block: "sequences-with-server-traffic", lenient: false, caps: 0, write_cap: 0 });
@@ -141,6 +144,19 @@ impl Prop for C11 {
                 }
             }
         }
+        // F: the transport refuses one write (before its first byte) at every position of every sequence of <= 2 events:
+        // a refused event is not on the wire, neither then nor later; the others go out exactly once
+        for s in seqs.iter().filter(|s| s.len() <= 2 && !s.contains(&Ev::Bitmap)) {
+            for pos in 0..s.len() {
+                for kind in 0..3u8 {
+                    let mut e = s.clone();
+                    e.insert(pos, Ev::FailNextWrite(kind));
+                    // and something after it, so that a frame kept back would show up
+                    e.push(Ev::Ptr { x: 77, y: 88, button: 2, down: true });
+                    cs.push(Case { events: e, user_id: uid, share_id: sid, block: "refused-write", lenient: false, caps: 0, write_cap: 0 });
+                }
+            }
+        }
         for s in seqs.iter().filter(|s| s.len() <= 2) {
             cs.push(Case { events: s.clone(), user_id: uid, share_id: sid, block: "sequences-lenient", lenient: true, caps: 0, write_cap: 0 });
             cs.push(Case { events: s.clone(), user_id: uid, share_id: sid, block: "sequences-no-scancode-flag", lenient: false, caps: 2, write_cap: 3 });
@@ -156,7 +172,7 @@ impl Prop for C11 {
         json!({"idx": idx, "block": c.block, "user_id": c.user_id, "share_id": c.share_id, "n_events": c.events.len(), "events": c.events.iter().take(8).collect::<Vec<_>>()})
     }
     fn rule(&self) -> String {
-        "cases = event sequences submitted through RdpClient::write on a really activated client (raw stack), decoded by the reference peer. [all-x/all-y/all-scancodes] every value 0..65535 of x, y and scancode (batches of 64 events, order checked); [buttons] 4 buttons x 2 press states x 5x5 boundary coordinates; [sequences] every sequence of <=3 (<=4) events over a 9-letter alphabet incl. an unsendable kind, alone and with one server PDU (fast-path bitmap, set-error-info, unknown data PDU) interleaved at every position; [identifiers] server-assigned user ids x share ids; [entry-point-x-capabilities-x-transport] a probe sequence (incl. the unsendable kind through write and try_write, a repeated pointer move) through write / try_write x 5 server capability lists (Windows, minimal, input capability without the scancode flag, no input capability, unknown sets) x a transport accepting 1..48 bytes per write; every sequence of <=2 events through try_write, and with the no-scancode-flag list on a 3-byte transport. Non-trivial: >= 2 events or non-default identifiers.".into()
+        "cases = event sequences submitted through RdpClient::write on a really activated client (raw stack), decoded by the reference peer. [all-x/all-y/all-scancodes] every value 0..65535 of x, y and scancode (batches of 64 events, order checked); [buttons] 4 buttons x 2 press states x 5x5 boundary coordinates; [sequences] every sequence of <=3 (<=4) events over a 9-letter alphabet incl. an unsendable kind, alone and with one server PDU (fast-path bitmap, set-error-info, unknown data PDU, a demand-active or a confirm-active arriving in the active state) interleaved at every position; [refused-write] one write refused by the transport (WouldBlock / TimedOut / Other, before its first byte) at every position of every sequence of <=2 events; [identifiers] server-assigned user ids x share ids; [entry-point-x-capabilities-x-transport] a probe sequence (incl. the unsendable kind through write and try_write, a repeated pointer move) through write / try_write x 5 server capability lists (Windows, minimal, input capability without the scancode flag, no input capability, unknown sets) x a transport accepting 1..48 bytes per write; every sequence of <=2 events through try_write, and with the no-scancode-flag list on a 3-byte transport. Non-trivial: >= 2 events or non-default identifiers.".into()
     }
     fn assumptions(&self) -> Vec<String> {
         vec![
@@ -180,6 +196,9 @@ impl Prop for C11 {
         let start_log = conn.peer.borrow().srv.log.len();
         let mut expected: Vec<InputEvent> = vec![];
         let mut lenient_down_none = vec![];
+        let mut fail_pending = false;
+        let mut refused = 0u32;
+        let _ = &refused;
         for (i, e) in c.events.iter().enumerate() {
             let before = conn.sh.borrow().from_client.len();
             match e {
@@ -187,8 +206,15 @@ impl Prop for C11 {
                     let ev = RdpEvent::Pointer(PointerEvent { x: *x, y: *y, button: button(*b), down: *down });
                     let r = if lenient { client.try_write(ev) } else { client.write(ev) };
                     if let Err(err) = r {
+                        if fail_pending {
+                            // the transport refused the write before taking a byte: the event is reported as not sent, and must not be
+                            fail_pending = false;
+                            refused += 1;
+                            continue;
+                        }
                         return Outcome::fail("mismatch", "pointer-event-refused-while-active", format!("event {}: {:?}", i, err));
                     }
+                    fail_pending = false;
                     let base = match b {
                         1 => 0x1000u16,
                         2 => 0x2000,
@@ -203,8 +229,14 @@ impl Prop for C11 {
                 Ev::Key { code, down } => {
                     let ev = RdpEvent::Key(KeyboardEvent { code: *code, down: *down });
                     if let Err(err) = if lenient { client.try_write(ev) } else { client.write(ev) } {
+                        if fail_pending {
+                            fail_pending = false;
+                            refused += 1;
+                            continue;
+                        }
                         return Outcome::fail("mismatch", "key-event-refused-while-active", format!("event {}: {:?}", i, err));
                     }
+                    fail_pending = false;
                     expected.push(InputEvent::Scancode { time: 0, flags: if *down { 0 } else { 0x8000 }, code: *code, pad: 0 });
                 }
                 Ev::Bitmap | Ev::BitmapLenient => {
@@ -217,11 +249,25 @@ impl Prop for C11 {
                         return Outcome::fail("mismatch", "unsendable-event-reached-the-wire", format!("event {}", i));
                     }
                 }
+                Ev::FailNextWrite(kind) => {
+                    let mut sh = conn.sh.borrow_mut();
+                    let pos = sh.from_client.len();
+                    sh.write_seq_pos = 0;
+                    sh.write_plan = crate::memlink::WritePlan::ErrOnceAt { pos, kind: [std::io::ErrorKind::WouldBlock, std::io::ErrorKind::TimedOut, std::io::ErrorKind::Other][*kind as usize % 3] };
+                    fail_pending = true;
+                }
                 Ev::Server(k) => {
                     let f = match k {
                         0 => framing::fastpath(0, &fastpath::updates_payload(&[Update::Bitmap(vec![Rect { left: 0, top: 0, right: 1, bottom: 0, width: 2, height: 1, bpp: 16, flags: 0, data: vec![1, 2, 3, 4] }])]), false),
                         1 => sdi(&share::set_error_info(c.share_id, 1002, 5)),
-                        _ => sdi(&share::save_session_info(c.share_id, 1002)),
+                        2 => sdi(&share::save_session_info(c.share_id, 1002)),
+                        3 => sdi(&share::demand_active(c.share_id, 1002, b"RDP\0", &share::minimal_caps(), 0)),
+                        _ => {
+                            let caps: Vec<u8> = share::minimal_caps().iter().flat_map(share::cap_bytes).collect();
+                            let mut w = vref::bytes::W::new();
+                            w.u32le(c.share_id).u16le(0x03EA).u16le(4).u16le((caps.len() + 4) as u16).bytes(b"RDP\0").u16le(share::minimal_caps().len() as u16).u16le(0).bytes(&caps);
+                            sdi(&share::share_control(share::PDUTYPE_CONFIRMACTIVE, 1002, &w.0))
+                        }
                     };
                     conn.sh.borrow_mut().push_to_client(&f);
                     if let Err(err) = client.read(|_| {}) {
